@@ -13,7 +13,7 @@ module String = Stdlib.String
 exception Oob
 let zi = z_of_int
 let iz = int_of_z
-let fillv = zi (-1)
+let fill_ref = ref (zi (-1))      (* fill operand of pad / expand; the typed handlers set it to the converted fill value *)
 let posl l = List.for_all (fun x -> Z.leb (zi 1) x) l
 let len l = zi (List.length l)
 
@@ -28,7 +28,7 @@ let build dst f =
 let build_o dsto f = match dsto with Some d -> build d f | None -> "unspecified"
 let outcome_view o f = match o with Val d -> build d f | Nothing -> "nothing" | Trap -> "trap"
 let sel s d i = get s d i
-let opt_or_fill s d = function Some j -> get s d j | None -> fillv
+let opt_or_fill s d = function Some j -> get s d j | None -> !fill_ref
 let idx_str l = show_list l
 let some_or_unspec = function Some x -> x | None -> raise Not_found
 let spec_build dsto f = match dsto with
@@ -133,13 +133,16 @@ let () =
     | _ -> failwith "pad_ix")
 
 (* =================================================================== part 2: the remaining routines *)
+let dtype_of = function "i8" | "u8" -> I8 | "i32" -> I32 | "i64" -> I64 | "f32" -> F32 | "f64" -> F64 | d -> failwith ("dtype " ^ d)
+let is_fl = function F32 | F64 -> true | _ -> false
 let zero = Z0
 let one = zi 1
 let nth l k = List.nth l k
 let set_nth_ k v l = List.mapi (fun j x -> if j = k then v else x) l
 let drop_nth k l = List.filteri (fun j _ -> j <> k) l
 let np_ax a d = match np_axis a d with Some k -> Some (int_of_nat k) | None -> None
-let float_str n q = Printf.sprintf "%.17g" (float_of_int (iz n) /. float_of_int (iz q))
+let float_of_z z = float_of_string (string_of_z z)
+let float_str n q = Printf.sprintf "%.17g" (float_of_z n /. float_of_z q)
 let show_parts l = String.concat " | " l
 let operand_get sa da sb db = function
   | OpLeft j -> get sa da j | OpRight j -> get sb db j | OpNeither -> raise Oob
@@ -380,22 +383,130 @@ let () =
   register "full_like" (function [a; v] -> const_h (getI v) (fst (getA a)) | _ -> failwith "full_like");
   register "zeros_like" (function [a] -> const_h zero (fst (getA a)) | _ -> failwith "zeros_like");
   register "ones_like" (function [a] -> const_h one (fst (getA a)) | _ -> failwith "ones_like");
-  let arange_h start stop p q =
+  let arange_h ?(fl=false) start stop p q =
     let show_elems n f = "ok " ^ string_of_z n ^ " ;" ^ (if Z.eqb n zero then "" else " " ^ String.concat "," (List.init (iz n) f)) in
     let el i = float_str (arange_elem start p q (zi i)) q in
-    let m = (match arange_len start stop p q with Val n -> show_elems n el | _ -> "trap") in
+    let elm i = float_str (arange_elem_cxx fl start p q (zi i)) q in
+    let m = (match arange_len start stop p q with Val n -> show_elems n elm | _ -> "trap") in
     let sp = if Z.eqb p zero then "unspecified" else
         (let num = Z.mul (Z.sub stop start) q in
          let n = Z.max zero (Z.opp (Z.div (Z.opp num) p)) in show_elems n el) in
-    r3 m sp (not (Z.eqb p zero)) in
+    r3 m sp (not (Z.eqb p zero) && not (fl && Z.eqb q one && Z.ltb p zero)) in
+  register "tarange" (function [dt; a; b; p; q] -> arange_h ~fl:(is_fl (dtype_of (getS dt))) (getI a) (getI b) (getI p) (getI q) | _ -> failwith "tarange");
   register "arange" (function [a; b; p; q] -> arange_h (getI a) (getI b) (getI p) (getI q) | _ -> failwith "arange");
   register "arange_e" (function [a; b; p] -> arange_h (getI a) (getI b) (getI p) one | _ -> failwith "arange_e");
   register "arange2" (function [a; b] -> arange_h (getI a) (getI b) one one | _ -> failwith "arange2");
   register "arange1" (function [b] -> arange_h zero (getI b) one one | _ -> failwith "arange1");
   register "linspace" (function [a; b; n; e] -> let a = getI a and b = getI b and n = getI n and e = not (Z.eqb (getI e) zero) in
-      let elems f = "ok " ^ string_of_z n ^ " ; " ^ String.concat "," (List.init (iz n) f) in
+      let elems f = "ok~ " ^ string_of_z n ^ " ; " ^ String.concat "," (List.init (iz n) f) in
       let m = elems (fun i -> let (nu, de) = linspace_elem a b n e (zi i) in if Z.eqb de zero then "nan" else float_str nu de) in
       let sp = elems (fun i -> if Z.eqb n one then float_str a one else
                         let dv = if e then Z.sub n one else n in float_str (Z.add (Z.mul a dv) (Z.mul (zi i) (Z.sub b a))) dv) in
       r3 m sp (Z.leb one n)
     | _ -> failwith "linspace")
+
+
+(* =================================================================== part 3: element types and argument-value variety *)
+(* typed array argument  T:<dtype>:<shape>:<data>  (common.ml hands it over as Str "<dtype>:<shape>:<data>"); values are
+   numerators over 4: an integer entry x of an integer type is 4x, an entry x of a floating type is x (= x/4) *)
+let four = zi 4
+let getT = function
+  | Str body -> (match String.split_on_char ':' body with
+      | [dt; shp; data] -> let d = dtype_of dt in
+        let nums = List.map (fun x -> if is_fl d then x else Z.mul four x) (parse_list data) in
+        (d, parse_list shp, nums)
+      | _ -> failwith "typed array")
+  | _ -> failwith "typed array"
+let num_str n = float_str n four
+(* re-type a result printed from numerators: every element e becomes  f e  printed as a real *)
+let map_elems f str =
+  let one part =
+    let part = String.trim part in
+    if String.length part < 3 || String.sub part 0 3 <> "ok " then part else
+      match String.index_opt part ';' with
+      | None -> part
+      | Some k ->
+        let head = String.sub part 0 (k + 1) and tl = String.trim (String.sub part (k + 1) (String.length part - k - 1)) in
+        if tl = "" then head else head ^ " " ^ String.concat "," (List.map (fun e -> num_str (f (z_of_string e))) (split_on ',' tl)) in
+  String.concat " | " (List.map one (String.split_on_char '|' str))
+let retype r fm fs dom = { model = map_elems fm r.model; spec = (if r.spec = "unspecified" then r.spec else map_elems fs r.spec); dom = dom }
+let call name args = (Hashtbl.find handlers name) args
+let arrT (_, s, n) = A (s, n)
+let exact24 n = Z.eqb (round_sig (zi 24) n) n
+let exact53 n = Z.eqb (round_sig (zi 53) n) n
+let join_dom ta tb vals = (cxx_common ta tb = np_common ta tb || List.for_all exact24 vals) && List.for_all exact53 vals
+
+let base_of = function
+  | "tconcat" | "tconcat_e" -> "concat" | "tstack" | "tstack_e" -> "stack" | "thstack" | "thstack_e" -> "hstack" | "tvstack" -> "vstack"
+  | "tdstack" -> "dstack" | "tcolumn_stack" -> "column_stack" | n -> failwith n
+let () =
+  List.iter (fun name -> register name (function
+      | a :: b :: rest ->
+        let (ta, _, na) as xa = getT a and (tb, _, nb) as xb = getT b in
+        let base = base_of name in
+        let args = (match base with
+            | "concat" | "stack" -> Str "vec" :: arrT xa :: arrT xb :: rest
+            | _ -> [arrT xa; arrT xb]) in
+        let r = call base args in
+        (* the correspondence-only joins (stack family) have dom = false in the base handler: the element-type statement is
+           about the conversion only, so the value part of the domain is what decides here *)
+        let dom = (if base = "concat" then r.dom else r.spec <> "unspecified") && join_dom ta tb (na @ nb) in
+        retype r (conv (cxx_common ta tb)) (conv (np_common ta tb)) dom
+      | _ -> failwith name))
+    ["tconcat"; "tconcat_e"; "tstack"; "tstack_e"; "thstack"; "thstack_e"; "tvstack"; "tdstack"; "tcolumn_stack"];
+  let where_h = function
+    | [c; x; y] -> let (tc, _, _) as xc = getT c and (tx, _, nx) as xx = getT x and (ty, _, ny) as xy = getT y in
+      let r = call "where" [arrT xc; arrT xx; arrT xy] in
+      (* element_type = common_type<condition, x, y> folded from the left; NumPy: result_type(x, y) *)
+      let cxx3 = cxx_common (cxx_common tc tx) ty in
+      retype r (conv cxx3) (conv (np_common tx ty)) (r.spec <> "unspecified" && join_dom tx ty (nx @ ny) && (is_fl cxx3 = is_fl (cxx_common tx ty)))
+    | _ -> failwith "twhere" in
+  register "twhere" where_h; register "twhere_e" where_h;
+  register "ttake" (function [_; a; ind; ax] -> let (_, _, _) as xa = getT a in
+      let r = call "take" [Str "vec"; arrT xa; ind; ax] in retype r (fun x -> x) (fun x -> x) r.dom
+    | _ -> failwith "ttake");
+  register "tcompress" (function [_; c; a; ax] -> let xa = getT a in
+      let r = call "compress" [Str "vec"; c; arrT xa; ax] in retype r (fun x -> x) (fun x -> x) r.dom
+    | _ -> failwith "tcompress");
+  register "compress_ix" (function [_; c; s; i; ax] -> let c = getL c and s = getL s and i = getL i and a = getI ax in
+      let m = ix_out (shape_compress_axis s c a) (idx_str (compress_axis_index c i a)) in
+      let tp = np_true_positions c in
+      let sp = (match np_take_axis_shape s tp a, np_take_axis_index s tp i a with
+          | Some dd, Some j when inbb i dd -> ix_out dd (idx_str j) | _ -> "unspecified") in
+      r3 m sp (posl s && valid_ax a (len s) && sp <> "unspecified")
+    | _ -> failwith "compress_ix");
+  let with_fill ts vt v f =
+    let n = if getS vt = "d" then getI v else Z.mul four (getI v) in
+    let old = !fill_ref in fill_ref := n;
+    let r = (try f () with e -> fill_ref := old; raise e) in fill_ref := old;
+    (* C++: static_cast<element_t>(value); NumPy casts constant_values to the array's dtype *)
+    retype r (conv ts) (conv ts) r.dom in
+  let pad_h = function [a; w; vt; v] -> let (ts, _, _) as xa = getT a in with_fill ts vt v (fun () -> call "pad" [Str "vec"; arrT xa; w])
+                     | _ -> failwith "tpad" in
+  register "tpad" pad_h; register "tpad_e" pad_h;
+  register "texpand" (function [a; ax; q; vt; v] -> let (ts, _, _) as xa = getT a in
+      with_fill ts vt v (fun () -> call "expand" [Str "vec"; arrT xa; ax; q]) | _ -> failwith "texpand");
+  register "tsel" (function
+      | r :: a :: rest -> let xa = getT a in
+        let name = getS r in
+        let args = (match name with
+            | "diagflat" -> arrT xa :: rest
+            | _ -> Str "vec" :: arrT xa :: rest) in
+        let res = call name args in retype res (fun x -> x) (fun x -> x) res.dom
+      | _ -> failwith "tsel");
+  let full_h = function [dt; shp; v] -> let d = dtype_of (getS dt) in
+      let n = if is_fl d then getI v else Z.mul four (getI v) in
+      let r = both (build (getL shp) (fun _ -> n)) (posl (getL shp)) in retype r (conv d) (conv d) r.dom
+                      | _ -> failwith "tfull" in
+  register "tfull" full_h; register "tfull_e" full_h;
+  (* zeros / ones / tri / eye / arange: the values (0, 1, integers, multiples of 1/4) are the same in every dtype *)
+  register "tzeros" (function [_; shp] -> call "zeros" [Str "vec"; shp] | _ -> failwith "tzeros");
+  register "tones" (function [_; shp] -> call "ones" [Str "vec"; shp] | _ -> failwith "tones");
+  register "ttri" (function [_; n; m; k] -> call "tri" [n; m; k] | _ -> failwith "ttri");
+  register "teye" (function [_; n; m; k] -> call "eye" [n; m; k] | _ -> failwith "teye");
+  register "tlinspace" (function [_; a; b; n; e] -> let a = getI a and b = getI b and n = getI n and e = not (Z.eqb (getI e) zero) in
+      (* start, stop are numerators over 4 *)
+      let elems f = "ok~ " ^ string_of_z n ^ " ; " ^ String.concat "," (List.init (iz n) f) in
+      let pr (nu, de) = if Z.eqb de zero then "nan" else float_str nu (Z.mul four de) in
+      r3 (elems (fun i -> pr (linspace_elem a b n e (zi i)))) (elems (fun i -> pr (np_linspace_elem a b n e (zi i)))) (Z.leb one n)
+    | _ -> failwith "tlinspace")
